@@ -94,6 +94,16 @@ func variants(r *core.RNG, m *model.Schema, seedLabel uint64, mk func() *typedoc
 	}
 	base := mk()
 	render(base, "base")
+	// the same document behind some ignored text: every position moves, nothing else
+	{
+		g := fmt.Sprintf("layout-%d", seedLabel)
+		out[0].group = g
+		pfx := []string{"\n", "   ", "\n\n  ", "# c\n", ",\t,", " \n# x\n "}[r.Intn(6)]
+		q := out[0]
+		q.text = pfx + q.text
+		q.note = "leading-ignored-text"
+		out = append(out, q)
+	}
 	// one literal changed
 	{
 		d := mk()
@@ -340,6 +350,24 @@ func (l *refLRU) store(key string, schemaID int) {
 
 func (l *refLRU) reset() { l.order = nil; l.owner = map[string]int{} }
 
+// sigNormalizedLocations: known finding (KNOWN_FINDINGS.txt). A normalising
+// cache serves the plan and AST of the text that created the entry, so error
+// locations are positions in that text.
+const sigNormalizedLocations = "finding:normalized-hit-reports-locations-of-the-entry's-first-text"
+
+func withoutLocations(r *graphql.Result) *graphql.Result {
+	if r == nil {
+		return nil
+	}
+	cp := *r
+	cp.Errors = nil
+	for _, e := range r.Errors {
+		e.Locations = nil
+		cp.Errors = append(cp.Errors, e)
+	}
+	return &cp
+}
+
 func canonResult(r *graphql.Result) string {
 	b, err := json.Marshal(r)
 	if err != nil {
@@ -519,6 +547,13 @@ func history(c *core.Child, r *core.RNG, m *model.Schema, vseed uint64, pool []q
 			}
 		}
 	}
+	// half of the histories run with failing / null-returning resolvers (the
+	// same pure outcome table on both sides), so that responses carry field
+	// errors with paths and locations
+	var outcomes *values.Outcomes
+	if r.Bool() {
+		outcomes = &values.Outcomes{Seed: r.U64(), Density: r.Range(5, 25), Kinds: []values.Kind{values.Error, values.Nil}}
+	}
 	cur := 0 // current schema index
 	lookups := uint64(0)
 	sawHit, sawEvict, sawSwap := false, false, false
@@ -606,7 +641,7 @@ func history(c *core.Child, r *core.RNG, m *model.Schema, vseed uint64, pool []q
 		}
 		// from-scratch side
 		scratch := scratches[cur]
-		scratch.SetOutcomes(nil)
+		scratch.SetOutcomes(outcomes)
 		scratch.Log.Reset()
 		var want *graphql.Result
 		if c.Guard("panic:Do", q.text, func() {
@@ -625,10 +660,16 @@ func history(c *core.Child, r *core.RNG, m *model.Schema, vseed uint64, pool []q
 			} else if messages(pr.Errors) != messages(want.Errors) {
 				// plan-time errors (operation selection) are worded by PlanQuery and by Execute alike
 				fail("transparency:errors-differ", fmt.Sprintf("Get errors [%s] differ from from-scratch errors [%s]", messages(pr.Errors), messages(want.Errors)), &q)
+			} else if a, b := canonResult(&graphql.Result{Errors: pr.Errors}), canonResult(&graphql.Result{Errors: want.Errors}); a != b {
+				if opts.Normalize {
+					fail(sigNormalizedLocations, fmt.Sprintf("Get errors %s, from scratch %s", trunc(a), trunc(b)), &q)
+				} else {
+					fail("transparency:error-locations", fmt.Sprintf("Get errors %s differ from from-scratch errors %s", trunc(a), trunc(b)), &q)
+				}
 			}
 			continue
 		}
-		env.SetOutcomes(nil)
+		env.SetOutcomes(outcomes)
 		env.Log.Reset()
 		var got *graphql.Result
 		if c.Guard("panic:ExecutePlan", q.text, func() {
@@ -642,6 +683,9 @@ func history(c *core.Child, r *core.RNG, m *model.Schema, vseed uint64, pool []q
 			sig := "transparency:response"
 			if opts.Normalize {
 				sig = "transparency:response:normalize"
+				if canonResult(withoutLocations(got)) == canonResult(withoutLocations(want)) {
+					sig = sigNormalizedLocations
+				}
 			}
 			fail(sig, fmt.Sprintf("served %s, from scratch %s (synthArgs=%s)", trunc(a), trunc(b), harness.CanonArgs(pr.SynthArgs)), &q)
 		} else if gotArgs != wantArgs {
